@@ -3,6 +3,7 @@ package load
 import (
 	_ "embed"
 	"fmt"
+	"os"
 	"go/types"
 	"sort"
 	"strings"
@@ -307,7 +308,8 @@ func normalise(prog *ssa.Program) (map[*ssa.Function]bool, *ssa.VerifNorm, []str
 	}
 	glue := map[*ssa.Function]bool{}
 	for _, fn := range fns {
-		if (!baselineSet[canonName(fn)] || transparent[canonName(fn)]) && fn.Name() != "init" && !strings.HasPrefix(fn.Name(), "init#") && fn.Name() != "main" {
+		stress := os.Getenv("RIECHECK_STRESS_NORM") != "" && !fn.Object().Exported() // self-test of the normaliser: absorb every unexported function
+		if (!baselineSet[canonName(fn)] || transparent[canonName(fn)] || stress) && fn.Name() != "init" && !strings.HasPrefix(fn.Name(), "init#") && fn.Name() != "main" {
 			glue[fn] = true
 		}
 	}
